@@ -1,5 +1,5 @@
 (* Corr/C11.v — correspondence glue: runs the Commands model on a case observed on the real command stack. *)
-From TX Require Import Base.Val Model.Commands.
+From TX Require Import Base.Val Model.CmdContext Model.Commands.
 Open Scope N_scope.
 
 (* case value:
@@ -67,7 +67,21 @@ Fixpoint run_steps (tbl : list row) (w : world) (ss : list tval) : bool :=
   | s :: ss' => let r := step_result tbl w s in obs_matches r (vnth 11 s) && run_steps tbl (res_world r) ss'
   end.
 
-Definition check (v : tval) : bool := run_steps (dec_table (vnth 0 v)) (dec_world (vnth 1 v)) (vl (vnth 2 v)).
+(* overlapping commands (Model/CmdContext.v):  [ 9 ; threads ; schedule ; observed ]
+   thread = [conn; client; tag; script([0 = look | 1 = Execute returns ...])]   schedule = thread indices
+   observed = per thread the [conn; client; tag] rows its handler saw *)
+Definition dec_action (v : tval) : action := if vbool v then AReturn else ALook.
+Definition dec_thread (v : tval) : ctxval * list action :=
+  ((vn (vnth 0 v), vn (vnth 1 v), vn (vnth 2 v)), map dec_action (vl (vnth 3 v))).
+Definition proj_ctx (x : ctxval) : list N := let '(c, i, t) := x in [c; i; t].
+Definition overlap_model (v : tval) : list (list ctxval) :=
+  observations (ctx_run false (map dec_thread (vl (vnth 1 v))) (map vnat (vl (vnth 2 v)))).
+Definition check_overlap (v : tval) : bool :=
+  all2 (fun obs o => rows_eqb (map proj_ctx obs) (vl o)) (overlap_model v) (vl (vnth 3 v)).
+
+Definition check (v : tval) : bool :=
+  if vn (vnth 0 v) =? 9 then check_overlap v
+  else run_steps (dec_table (vnth 0 v)) (dec_world (vnth 1 v)) (vl (vnth 2 v)).
 
 (* the model's outputs, step by step, for diagnostics *)
 Definition enc_rows (l : list (list N)) : tval := VL (map (fun r => VL (map VN r)) l).
@@ -81,4 +95,6 @@ Fixpoint predict_steps (tbl : list row) (w : world) (ss : list tval) : list tval
   | [] => []
   | s :: ss' => let r := step_result tbl w s in enc_result r :: predict_steps tbl (res_world r) ss'
   end.
-Definition predict (v : tval) : tval := VL (predict_steps (dec_table (vnth 0 v)) (dec_world (vnth 1 v)) (vl (vnth 2 v))).
+Definition predict (v : tval) : tval :=
+  if vn (vnth 0 v) =? 9 then VL (map (fun obs => enc_rows (map proj_ctx obs)) (overlap_model v))
+  else VL (predict_steps (dec_table (vnth 0 v)) (dec_world (vnth 1 v)) (vl (vnth 2 v))).
